@@ -137,8 +137,7 @@ EXPORT errno_t _memmove_s_chk(void *dest, rsize_t dmax, const void *src,
     if (srcbos == BOS_UNKNOWN) {
         BND_CHK_PTR_BOUNDS(src, slen);
     } else if (unlikely(slen > srcbos)) {
-        invoke_safe_mem_constraint_handler("memmove_s: slen exceeds src",
-                                           (void *)src, EOVERFLOW);
+        handle_mem_error(dest, dmax, "memmove_s: slen exceeds src", EOVERFLOW);
         return (RCNEGATE(EOVERFLOW));
     }
 
